@@ -46,7 +46,7 @@ def T(base, b):
 
 def gen_cases(run):
     rng = run.rng
-    scale = 50 if run.tier == "thorough" else 1
+    scale = 20 if run.tier == "thorough" else 1
     cases = []
     # corpus first
     for p in sorted(glob.glob(os.path.join(C.VERIF, "corpus", "c04", "*.case"))):
@@ -150,7 +150,7 @@ def run_c_resilient(exe, lines):
         res[start:start + ncomplete] = ch[:ncomplete]
         crashes.append((start + ncomplete, rc, err[-3000:]))
         start = start + ncomplete + 1
-        if len(crashes) > 200:
+        if len(crashes) > 12:
             break
     return res, crashes
 
@@ -255,6 +255,16 @@ def check(run, replay=None):
         fc = [ex.submit(run_c_resilient, exe, p) for p in parts]
         couts = [f.result() for f in fc]
     C.log("[C04] implementation %.1fs" % (time.time() - t0))
+    classes = {}     # class key -> (size, case, what, replay, no_input)
+    n_shrunk = [0]
+
+    def report(cls, case, what, replay_text, no_input=False):
+        cur = classes.get(cls)
+        cand = (len(case), case, what, replay_text, no_input)
+        if cur is None or cand[:2] < cur[:2]:
+            classes[cls] = cand
+        run.bump("violating-case:" + cls)
+
     for p, (res, crashes) in zip(parts, couts):
         for idx, rc, err in crashes:
             c = p[idx]
@@ -267,11 +277,16 @@ def check(run, replay=None):
                 def fails(t, fmt=fmt, kind=kind):
                     r, o, e = run_prog([exe], [S(fmt, t)], env=C.run_env(), timeout=30)
                     return r != 0 and crash_kind(r, e) == kind
-                small = G.shrink_bytes(b, fails) if len(b) <= 64 else b
+                n_shrunk[0] += 1
+                small = G.shrink_bytes(b, fails) if (len(b) <= 40 and n_shrunk[0] <= 4) else b
                 c = S(fmt, small)
                 key = finding_key(c, kind)
-            run.violation(key, "the C code dies (%s) on case %s" % (kind, c),
-                          "kind: input\ncase: %s\nmodel: %s\nimpl: rc=%d\n%s\n" % (c, " | ".join(model.get(c, ["?"])), rc, err[-2000:]))
+            if key in ("sscanf-empty-string", "sscanf-leading-comma-assert"):
+                run.violation(key, "the C code dies (%s) on case %s" % (kind, c),
+                              "kind: input\ncase: %s\nimpl: rc=%d\n%s\n" % (c, rc, err[-2000:]))
+            else:
+                report("crash-%s:%s" % (kind, c[:3].replace(" ", "")), c, "the C code dies (%s) on case %s" % (kind, c),
+                       "kind: input\ncase: %s\nmodel: %s\nimpl: rc=%d\n%s\n" % (c, " | ".join(model.get(c, ["?"])), rc, err[-2000:]))
         for c, o in zip(p, res):
             if o is None:
                 continue
@@ -284,16 +299,19 @@ def check(run, replay=None):
             run.count("\n".join(o), nontrivial=nontriv, sample={"case": c, "impl": o[:4], "model": m[:4]}, kind=kind)
             bad = spec_check(c, o)
             for key, what in bad:
-                run.violation(key, what, "kind: input\ncase: %s\nimpl:\n%s\nmodel:\n%s\n" % (c, "\n".join(o[:12]), "\n".join(m[:12])))
+                report(key, c, what, "kind: input\ncase: %s\nimpl:\n%s\nmodel:\n%s\n" % (c, "\n".join(o[:12]), "\n".join(m[:12])))
             if o == m:
                 run.cov["traces_validated_against_impl"] += 1
             elif not bad:
                 d = next((i for i in range(min(len(o), len(m))) if o[i] != m[i]), min(len(o), len(m)))
-                run.violation("correspondence:" + c.replace(" ", "-")[:100],
-                              "model and implementation differ on %s at line %d: impl=%r model=%r (the property itself holds on the C output)"
-                              % (c, d, o[d] if d < len(o) else None, m[d] if d < len(m) else None),
-                              "kind: correspondence\ncase: %s\nimpl: %s\nmodel: %s\n" % (c, o[d] if d < len(o) else None, m[d] if d < len(m) else None),
-                              no_input=True)
+                report("correspondence:" + c[:3].replace(" ", ""), c,
+                       "model and implementation differ on %s at line %d: impl=%r model=%r (the property itself holds on the C output)"
+                       % (c, d, o[d] if d < len(o) else None, m[d] if d < len(m) else None),
+                       "kind: correspondence\ncase: %s\nimpl: %s\nmodel: %s\n" % (c, o[d] if d < len(o) else None, m[d] if d < len(m) else None),
+                       no_input=True)
+    for cls in sorted(classes):
+        size, c, what, rep, no_input = classes[cls]
+        run.violation("%s:%s" % (cls, c.replace(" ", "_")[:80]), what, rep, no_input=no_input)
     run.cov["corpus_cases"] = n_corpus
     run.cov["cases"] = len(cases)
     run.cov["observations"] = [
@@ -317,15 +335,15 @@ def spec_check(case, o):
             if t[0] == "p":
                 needed[t[1]] = int(t[2])
             elif t[0] == "a" and (t[3] != "1" or int(t[2]) != needed.get(t[1])):
-                bad.append(("asprintf-differs:%s:%s" % (t[1], tag), "asprintf and snprintf disagree: " + line))
+                bad.append(("asprintf-differs:%s" % t[1], "asprintf and snprintf disagree: " + line))
             elif t[0] == "r" and t[3] != "1":
-                bad.append(("roundtrip:%s:%s" % (t[1], tag), "print then parse does not give the bitmap back: " + line))
+                bad.append(("roundtrip:%s" % t[1], "print then parse does not give the bitmap back: " + line))
             elif t[0] == "b" and (t[5] != "1" or int(t[3]) != needed.get(t[1])):
-                bad.append(("snprintf-contract:%s:len%s:%s" % (t[1], t[2], tag), "snprintf contract broken: " + line))
+                bad.append(("snprintf-contract:%s" % t[1], "snprintf contract broken: " + line))
     elif case[0] == "S":
         t = o[-1].split(" ")
         if t[2] not in ("0", "-1"):
-            bad.append(("parse-return:%s" % tag, "sscanf returned neither 0 nor -1: " + o[-1]))
+            bad.append(("parse-return:%s" % case[2:3], "sscanf returned neither 0 nor -1: " + o[-1]))
         elif t[-1] != "1":
-            bad.append(("parse-unstable:%s" % tag, "accepted string is not stable under print-then-parse (or the set is not zeroed on failure): " + o[-1]))
+            bad.append(("parse-unstable:%s" % case[2:3], "accepted string is not stable under print-then-parse (or the set is not zeroed on failure): " + o[-1]))
     return bad
